@@ -95,8 +95,11 @@ class Pages(Files):
                     filepath, stat_result, if_none_match, if_modified_since
                 )(scope, receive, send)
             if stat.S_ISDIR(stat_result.st_mode):
-                url = URL(scope=scope)
-                url = url.replace(scheme="", path=url.path + "/")
+                try:
+                    url = URL(scope=scope)
+                    url = url.replace(scheme="", path=url.path + "/")
+                except ValueError:
+                    raise HTTPException(400, content="Invalid Host header") from None
                 return await RedirectResponse(url)(scope, receive, send)
 
         if self.handle_404 is None:
